@@ -20,13 +20,16 @@ def run(c):
     c.rule = ("each case drives one real MultiItem (60% directly through MapStringTop/MapStringTopBytes + the MultiValue call, 40% through "
               "agent.Shard.ApplyCounter/AddCounterHost/AddValueCounterHost/ApplyValues/MergeItemValue) with Zipf-distributed top values "
               "(string, int, string+int, binary, empty), capacity 1..20 / varying per event / <1 (default 100) / roomy, counter, value, "
-              "value-array and merge events, random re-enumerations, FinishStringTop at the end (and sometimes in the middle) with "
+              "value-array and merge events whose counts and values are dyadic rationals (multiples of 1/16; half of the cases fractional, "
+              "16% of the cases a cluster of many distinct top values with counts less than 1 apart and a finish cutting through it), random re-enumerations, FinishStringTop at the end (and sometimes in the middle) with "
               "capacity around the number of top values (one third steered onto a tie); non-trivial = the case reached at least "
               "one of: resample = a resample round evicted values, redirect = an event was sent to the tail by the sample-factor "
-              "test, fold = finish folded values, tie = equal counts on both sides of the finish boundary (per-tag counts in "
+              "test, fold = finish folded values, tie = equal counts on both sides of the finish boundary, fraccut = retained and folded counts at the boundary differ by "
+              "less than 1 (per-tag counts in "
               "nontrivial_tags); distinct by op-sequence hash")
     c.assumptions += [
-        "exact float64 domain: counts, values and all sums are integers below 2^53, value-array counts are multiples of the array length",
+        "exact float64 domain: counts and values are multiples of 1/16, sums multiples of 1/256, all below 2^53 in those units (the model "
+        "holds them as scaled Ints); value-array counts are multiples of the array length",
         "random draws and Go map order are inputs of the model: the harness derives a witness (rounds, evicted keys, enumeration) from the "
         "observed pre/post state; the model must reproduce the observed row from it (an illegal eviction or fold cannot be reproduced)",
         "host tags, sum of squares, t-digest and HLL parts of a MultiValue are not modelled; `1 << sampleFactorLog2` does not overflow",
